@@ -5,6 +5,7 @@
    AST: id | (c v) | (pipe a b) | (comma a b) | empty | (iter t) | (index t v) | (if c a b) | (alt a b)
       | (try a) | (try a h) | (arr q) | (reduce src x init upd) | (foreach src x init upd [ext])
       | (label l body) | (break l) | (bind src x body) | (var x) | (call0 f) | (binop o a b)
+      | (def f body rest) | (callf f)
    sarg: id | (c v) | (index v) | iter | empty | (call0 f)
    values: null true false (i z) (s hex) (a v...) (o (hexkey v)...) ; ending: end | (val v) | msg *)
 From Coq Require Import List ZArith NArith Bool String.
@@ -64,6 +65,7 @@ Fixpoint dec_q (e : sexp) : option query :=
           else if atom_is "break" t then option_map QBreak (dec_name x)
           else if atom_is "var" t then option_map QVar (dec_name x)
           else if atom_is "call0" t then option_map QCall0 (dec_fn0 x)
+          else if atom_is "callf" t then option_map (fun f => QCallF f []) (dec_name x)
           else None
       | [x; y] =>
           if atom_is "pipe" t then match dec_q x, dec_q y with Some a, Some b => Some (QPipe a b) | _, _ => None end
@@ -77,6 +79,7 @@ Fixpoint dec_q (e : sexp) : option query :=
           if atom_is "if" t then match dec_q x, dec_q y, dec_q z with Some c, Some a, Some b => Some (QIf c a b) | _, _, _ => None end
           else if atom_is "bind" t then match dec_q x, dec_name y, dec_q z with Some s, Some n, Some b => Some (QBind s n b) | _, _, _ => None end
           else if atom_is "binop" t then match dec_binop x, dec_q y, dec_q z with Some o, Some a, Some b => Some (QBinop o a b) | _, _, _ => None end
+          else if atom_is "def" t then match dec_name x, dec_q y, dec_q z with Some f, Some b, Some r => Some (QDef f [] b r) | _, _, _ => None end
           else None
       | [x; y; z; u] =>
           match dec_q x, dec_name y, dec_q z, dec_q u with
@@ -118,6 +121,7 @@ Definition enc_instr (i : instr) : sexp :=
   | Iscope id n a => SList [A "scope"; nat_atom id; nat_atom n; nat_atom a]
   | Iret => A "ret" | Iiter => A "iter" | Iexpbegin => A "expbegin" | Iexpend => A "expend"
   | Ipushpc p => SList [A "pushpc"; nat_atom p] | Icallpc => A "callpc"
+  | Icallf p => SList [A "call"; nat_atom p] | Icallrec p => SList [A "callrec"; nat_atom p]
   end.
 
 Definition sexp_eqb (a b : sexp) : bool := list_N_eqb (print a) (print b).
@@ -139,6 +143,7 @@ Definition enc_end_den (x : option exn) : sexp :=
   | Some (XErr (EVal v)) => SList [A "val"; enc_val v]
   | Some (XErr (EMsg _)) => A "msg"
   | Some (XBrk _) => A "brk"
+  | Some XFuel => A "denfuel"
   end.
 Definition enc_obs (outs : list jv) (e : sexp) : sexp := SList [SList (map enc_val outs); e].
 
@@ -154,8 +159,9 @@ Definition obs_vm_raw (q : query) (v : jv) : option sexp :=
   | Some c => let '(o, e) := run cnat c big_fuel (init c v) in Some (enc_obs o (enc_end_vm e))
   | None => None
   end.
+Definition den_fuel : nat := 400.
 Definition obs_den (q : query) (v : jv) : sexp :=
-  let '(o, x) := den cnat q [] v in enc_obs o (enc_end_den x).
+  let '(o, x) := den cnat den_fuel q [] v in enc_obs o (enc_end_den x).
 
 Definition bad (what : string) (e : sexp) : sexp := SList [A "bad"; A what; e].
 
@@ -165,7 +171,7 @@ Definition run_sexp (spec : bool) (e : sexp) : sexp :=
       if atom_is "code" k then
         match dec_q ast with
         | Some q =>
-            match compile q, option_map peephole_arr (compile_raw q) with
+            match compile q, option_map (fun c => peephole_arr (tailrec c)) (compile_raw q) with
             | Some c, Some c2 =>
                         let mine := SList (map enc_instr c) in
                         if negb (sexp_eqb mine (SList (map enc_instr c2))) then bad "model-peephole-variants-differ" mine
